@@ -25,6 +25,6 @@ def check(ctx):
     ctx.rule("C01.O1", "after entering an untimed state its expiry is its entry time plus a constant of at least 1e9 seconds")
     ctx.rule("CRASH", "no exception escapes engage/done/execute/on_enable/on_disable on a reachable path")
     res = smcommon.run_universes(ctx, "StateMachine", owned=OWNED)
+    smcommon.report(ctx, res, OWNED)
     ctx.floor("universes", len(res), 4)
     ctx.floor("typestates", sum(r["states"] for r in res), 1000)
-    smcommon.report(ctx, res, OWNED)
